@@ -30,9 +30,6 @@ def main(argv=None):
             if args.v and ctx is not None:
                 for o in ctx.obs:
                     print("   ", o.line())
-            if code == 0 and args.tier == "thorough":
-                from . import selftest
-                code = selftest.run_for_property(args.prop)
             return code
         except Exception:
             traceback.print_exc()
